@@ -14,6 +14,7 @@ type VGhost struct {
 	C6, C7   []uint8
 	C8, C9   []uint8
 	OSFailed bool
+	Trunc    bool // the output file was created empty (os.Create, or os.OpenFile with O_TRUNC)
 }
 
 func vsForallIdx(f func(i int) bool) bool {
@@ -64,6 +65,6 @@ func vsCasContainer(g *VGhost, off uint16, nam, cim string) bool {
 	if name == "" {
 		name = cim
 	}
-	return g.NC == 8 && vsIsSync(g.C0) && vsIsTypeBin(g.C1) && vsName6(g.C2, name) && vsIsSync(g.C3) &&
+	return g.Trunc && g.NC == 8 && vsIsSync(g.C0) && vsIsTypeBin(g.C1) && vsName6(g.C2, name) && vsIsSync(g.C3) &&
 		vsIsU16(g.C4, off) && vsIsU16(g.C5, off+uint16(len(g.In))-1) && vsIsU16(g.C6, off) && vsSame(g.C7, g.In)
 }
